@@ -40,6 +40,9 @@ func SoyFile(name, text string) (node *ast.SoyFileNode, err error) {
 	}
 	defer t.recover(&err)
 	t.root = t.itemList(itemEOF)
+	// the scanner has sent its last item: wait until it has closed the channel,
+	// so that it is gone when this call returns (as on the error path).
+	t.lex.drain()
 	t.lex = nil
 	return &ast.SoyFileNode{
 		Name: t.name,
@@ -438,6 +441,7 @@ func (t *tree) parseSwitch(token item, end itemType) ast.Node {
 	t.expect(itemRightDelim, ctx)
 
 	var cases []*ast.SwitchCaseNode
+	var sawDefault = false
 	for {
 		switch tok := t.next(); tok.typ {
 		case itemLeftDelim:
@@ -447,6 +451,12 @@ func (t *tree) parseSwitch(token item, end itemType) ast.Node {
 			}
 			t.unexpected(atTextStart(tok), "between switch cases")
 		case itemCase, itemDefault:
+			if tok.typ == itemDefault {
+				if sawDefault {
+					t.unexpected(tok, ctx+" (a second {default})")
+				}
+				sawDefault = true
+			}
 			cases = append(cases, t.parseCase(tok))
 		case end:
 			t.expect(itemRightDelim, ctx)
@@ -518,10 +528,15 @@ func (t *tree) parseIf(token item) ast.Node {
 		var body = t.itemList(itemElseif, itemElse, itemIfEnd)
 		conds = append(conds, &ast.IfCondNode{token.pos, condExpr, body})
 		t.backup()
-		switch t.next().typ {
+		switch tok := t.next(); tok.typ {
 		case itemElseif:
-			// continue
+			if isElse {
+				t.unexpected(tok, "if (after {else})")
+			}
 		case itemElse:
+			if isElse {
+				t.unexpected(tok, "if (a second {else})")
+			}
 			isElse = true
 		case itemIfEnd:
 			t.expect(itemRightDelim, "/if")
